@@ -241,3 +241,70 @@ let () = register "c17disp" (fun line ->
       if rs = [] then "noreply" else S.concat "" rs) frames in
     S.concat "," replies) children in
   S.concat "|" outs ^ " calls=" ^ S.concat "," (L.rev !calls))
+
+(* ---------------- C14 / C03: dispatch, routing, assembly ---------------- *)
+let bytes_of_ocaml (s : string) : coq_N list = L.init (S.length s) (fun i -> n_of_int (Char.code (Stdlib.String.get s i)))
+let ocaml_of_bytes (l : coq_N list) : string = S.init (L.length l) (fun i -> Char.chr (int_of_n (L.nth l i)))
+let ascii_low (s : string) = S.lowercase_ascii s
+
+let plan_of v = Dispatch.plan_of Tables.handler_names Tables.handler_funcs Tables.invalid_request_text v
+let is_ro name = Dispatch.is_read_only Tables.read_only_commands name
+
+(* the fake backends of the harness (harness/c14.go fakeAnswer) *)
+let fake_answer (body : Resp.resp list) : Resp.resp =
+  match body with
+  | [] -> Resp.Err (bytes_of_ocaml "ERR bad request")
+  | hd :: rest ->
+    let name = ascii_low (ocaml_of_bytes (Dispatch.bulk_text hd)) in
+    let key = match rest with k :: _ -> Dispatch.bulk_text k | [] -> [] in
+    (match name with
+     | "get" -> Resp.Bulk (Some (bytes_of_ocaml "v:" @ key))
+     | "set" -> Resp.Simple (bytes_of_ocaml "OK")
+     | "del" | "exists" | "touch" | "unlink" -> Resp.Int (z_of_int (L.length key mod 2))
+     | "readonly" | "asking" -> Resp.Simple (bytes_of_ocaml "OK")
+     | _ -> Resp.Bulk (Some (bytes_of_ocaml name @ [n_of_int 58] @ key)))
+
+let strategy_of = function "0" -> Dispatch.SMaster | "1" -> Dispatch.SReplica | _ -> Dispatch.SBoth
+
+let body_string (b : Resp.resp list) = S.concat "_" (S.split_on_char ' ' (val_string (Resp.Arr (Some b))))
+
+let c14_run (is_ro : coq_N list -> bool) = (fun line ->
+  match S.split_on_char ' ' line with
+  | st :: seedhex :: nodeshex :: toks ->
+    let seeds = S.split_on_char ',' (ocaml_of_bytes (bytes_of_hex seedhex)) in
+    let v = parse_val (Array.of_list toks) (ref 0) in
+    let insts = match Dispatch.parse_cluster_nodes (bytes_of_hex nodeshex) with
+      | Dispatch.CnOk l -> l | _ -> failwith "cluster nodes" in
+    let route (key, body) =
+      let slot = Slot.slot_of Tables.crc16tab Tables.slot_num key in
+      let name = Dispatch.bulk_text (L.hd body) in
+      let cands = match Dispatch.owners insts slot with
+        | [] -> seeds
+        | os -> L.concat (L.map (fun o -> L.map ocaml_of_bytes (Dispatch.candidates (strategy_of st) (is_ro name) o)) os) in
+      S.concat "," (L.sort compare cands) ^ "=" ^ body_string body in
+    (match plan_of v with
+     | Dispatch.PLocalErr t -> val_string (Resp.Err t) ^ " | "
+     | Dispatch.PLocalSimple t -> val_string (Resp.Simple t) ^ " | "
+     | Dispatch.PLocalInfo -> "LOCAL:info | "
+     | Dispatch.PLocalTime -> "LOCAL:time | "
+     | Dispatch.PLocalHotKey -> "LOCAL:hotkey | "
+     | Dispatch.PScan args ->
+       let hosts = L.sort compare seeds in
+       (match Dispatch.scan_plan_of Tables.invalid_request_text Tables.invalid_cursor_text args (n_of_int (L.length hosts)) with
+        | Dispatch.ScErr t -> val_string (Resp.Err t) ^ " | "
+        | Dispatch.ScTerm -> val_string (Resp.Arr (Some [Resp.Bulk (Some [n_of_int 48]); Resp.Arr (Some [])])) ^ " | "
+        | Dispatch.ScNode (idx, body) ->
+          (match Dispatch.scan_reply idx (fake_answer body) with
+           | None -> "PANIC | " ^ L.nth hosts (int_of_n idx) ^ "=" ^ body_string body
+           | Some r -> val_string r ^ " | " ^ L.nth hosts (int_of_n idx) ^ "=" ^ body_string body))
+     | Dispatch.PForward (a, subs) ->
+       let reply = Dispatch.assemble_reply a (L.map (fun (_, b) -> fake_answer b) subs) in
+       val_string reply ^ " | " ^ S.concat " " (L.sort compare (L.map route subs)))
+  | _ -> failwith "bad c14 case")
+
+let () = register "c14" (c14_run is_ro)
+(* the same with Redis' own read-only flags instead of the proxy's regenerated table: the specification side *)
+(* every request treated as a write: the owning master only *)
+let () = register "c14master" (c14_run (fun _ -> false))
+let () = register "c14spec" (c14_run (fun name -> Dispatch.is_read_only RedisFlags.redis_read_only name))
+
